@@ -464,6 +464,26 @@ func init() {
 			// 4. loc operand: Clean(join(dir(ctx.Location()), loc)) for relative locations
 			if locCall != nil {
 				a := locCall.Call.Args[0]
+				// both operands of the containment test must be ABSOLUTE before they are resolved:
+				// EvalSymlinks keeps a relative path relative, and two relative spellings can share a
+				// textual prefix ("../" and "../../x") without one containing the other
+				absOf := func(v ssa.Value) (ssa.Value, bool) {
+					if ac := extractOf(v, 0, "path/filepath", "Abs"); ac != nil {
+						return ac.Call.Args[0], true
+					}
+					return v, false
+				}
+				inner, locAbs := absOf(a)
+				_, rootAbs := ssa.Value(nil), false
+				if rootCall != nil {
+					_, rootAbs = absOf(rootCall.Call.Args[0])
+				}
+				if locAbs && rootAbs {
+					add("absolute operands", Proved, "EvalSymlinks is applied to filepath.Abs results for the root and for the location", locCall.Pos())
+				} else {
+					add("absolute operands", Violated, "the root or the location is resolved without being made absolute first: with a relative RootDir such as \"..\" the prefix test compares relative spellings and \"../../secret.lisp\" passes", locCall.Pos())
+				}
+				a = inner
 				cl := asCall(a)
 				if cl != nil && staticCalleeIs(&cl.Call, "path/filepath", "Clean") {
 					hasParam := derivesFrom(cl.Call.Args[0], func(v ssa.Value) bool { p, ok := v.(*ssa.Parameter); return ok && p.Name() == "loc" }, 6, map[ssa.Value]bool{})
